@@ -3,6 +3,10 @@ Import ListNotations.
 Require Import Urcu.Base.MachD Urcu.Lfht.Lfht Urcu.Lfht.LfhtSorted Urcu.Lfht.LfhtReach.
 Local Open Scope N_scope.
 
+Lemma bkt_mkp5 id : is_bucket (mkp id (REMOVED + OWNER)) = false.  Proof. unfold is_bucket, mkp. rewrite tb1. reflexivity. Qed.
+Lemma rem_mkp5 id : is_removed (mkp id (REMOVED + OWNER)) = true.  Proof. unfold is_removed, mkp. rewrite tb0. reflexivity. Qed.
+Lemma ptr_mkp5 id : ptr (mkp id (REMOVED + OWNER)) = id.  Proof. apply ptr_mkp. unfold REMOVED, OWNER. lia. Qed.
+
 Section STEP.
 Variable C : cfg.
 Variable isB : N -> bool.
@@ -16,15 +20,15 @@ Lemma NoDup_tail {A} (x : A) l : NoDup (x :: l) -> NoDup l.
 Proof. intros H; inversion H; assumption. Qed.
 
 Definition post_of (q : hpc) : list (hloc * N) :=
-  match q with A_Cas nd _ _ _ it => [(HNext nd, clr it)] | _ => [] end.
+  match q with A_Cas nd _ _ _ it => [(HNext nd, clr it)] | R_Cas _ new onext _ => [(HNext new, onext)] | _ => [] end.
 
-Lemma step_add_at (s : st) t node b u prev r todo fnd :
+Lemma step_add_at (s : st) t node b u prev r todo fnd fx :
   Inv2 s -> future C s t = node :: adds todo -> NoDup (node :: adds todo) ->
   (forall y, In y [b; prev; ptr r; fnd] -> y = 0 \/ insd s y) ->
   is_removed r = false -> isB b = true -> prev <> 0 ->
   (fnd = 0 \/ (insd s fnd /\ isB fnd = false)) ->
   Inv2 (mkst2 C (drain hloc hloc_eqb (smem _ _ s) (post_of (add_at C node b u prev r)))
-              (tupd hloc (hprog C) (sthr _ _ s) t (mkts2 C {| hcur := add_at C node b u prev r; htodo := todo; found := fnd |}))).
+              (tupd hloc (hprog C) (sthr _ _ s) t (mkts2 C {| hcur := add_at C node b u prev r; htodo := todo; found := fnd; fnext := fx |}))).
 Proof.
   intros HI Hfut Hnd Hr Hrm HB Hpv Hfd. unfold add_at.
   assert (Hin : In node (future C s t)) by (rewrite Hfut; left; reflexivity).
@@ -36,13 +40,13 @@ Proof.
     + split; [|exact I]. cbn. split; [exact Hrm|]. unfold is_end in Ee. apply N.eqb_neq. exact Ee.
 Qed.
 
-Lemma step_dup_at (s : st) t node b u prev iter cur todo fnd :
+Lemma step_dup_at (s : st) t node b u prev iter cur todo fnd fx :
   Inv2 s -> future C s t = node :: adds todo -> NoDup (node :: adds todo) ->
   (forall y, In y [b; prev; ptr iter; ptr cur; fnd] -> y = 0 \/ insd s y) ->
   is_removed iter = false -> isB b = true -> prev <> 0 ->
   (fnd = 0 \/ (insd s fnd /\ isB fnd = false)) ->
   Inv2 (mkst2 C (drain hloc hloc_eqb (smem _ _ s) (post_of (dup_at C node b u prev iter cur)))
-              (tupd hloc (hprog C) (sthr _ _ s) t (mkts2 C {| hcur := dup_at C node b u prev iter cur; htodo := todo; found := fnd |}))).
+              (tupd hloc (hprog C) (sthr _ _ s) t (mkts2 C {| hcur := dup_at C node b u prev iter cur; htodo := todo; found := fnd; fnext := fx |}))).
 Proof.
   intros HI Hfut Hnd Hr Hrm HB Hpv Hfd. unfold dup_at.
   assert (Hin : In node (future C s t)) by (rewrite Hfut; left; reflexivity).
@@ -64,10 +68,10 @@ Proof.
   set (p := tpc _ _ (THr C s t)) in *.
   assert (Hbins : forall i, insd s (bucket C i) /\ bucket C i <> 0) by (intros i; apply (J_bins C isB s HI); apply Hbkt).
   assert (Hclose : forall x, (x = 0 \/ insd s x) -> x <> 0 -> ptr (nxw s x) = 0 \/ insd s (ptr (nxw s x))) by (intros x Hx Hn; apply (loaded_closed C isB s x HI Hx Hn)).
-  unfold hact. destruct p as [pc todo fnd] eqn:Ep. cbn [hcur htodo Lfht.found] in *.
-  destruct pc; cbn [eff2 fst snd hnext hcur htodo Lfht.found hpost].
+  unfold hact. destruct p as [pc todo fnd fx] eqn:Ep. cbn [hcur htodo Lfht.found Lfht.fnext] in *.
+  destruct pc; cbn [eff2 fst snd hnext hcur htodo Lfht.found Lfht.fnext hpost].
   - (* Idle *)
-    destruct todo as [|[n h u|h rh k|] rest]; cbn [hnext hpost hcur htodo Lfht.found drain].
+    destruct todo as [|[n h u|h rh k| |new] rest]; cbn [hnext hpost hcur htodo Lfht.found Lfht.fnext drain].
     + exact HI.
     + apply Inv2_nowrite; try exact HI; cbn [hcur htodo Lfht.found refs fut_of mine adds app]; try exact I; try (split; exact I).
       * intros y [E|[]]. subst. destruct Hfd as [H|[H _]]; [left; exact H|right; exact H].
@@ -85,6 +89,18 @@ Proof.
       * cbn [fut_of hcur htodo mine adds app] in Hnd. exact Hnd.
       * unfold LIs. split; [exact I|]. destruct Hfd as [H|[_ H]]; [left; exact H|right; exact H].
       * exact Hfd.
+    + (* replace: the checks that precede any memory access *)
+      assert (Hfdc : fnd = 0 \/ insd s fnd) by (destruct Hfd as [H|[H _]]; [left; exact H|right; exact H]).
+      assert (Hsub : forall n, In n (adds rest) -> In n (future C s t)) by (intros n Hn; rewrite Hfut; cbn [fut_of hcur htodo mine adds app]; right; exact Hn).
+      cbn [fut_of hcur htodo mine adds app] in Hnd.
+      unfold repl_start.
+      destruct (N.eqb_spec fnd 0) as [E0|E0]; [|destruct (negb (rh C fnd =? rh C new)); [|destruct (negb (key C fnd =? key C new))]]; cbn [drain];
+        (apply Inv2_nowrite; [exact HI| | | | | |exact Hfd]); cbn [hcur htodo Lfht.found refs fut_of mine adds app LIs LIs3];
+        try (intros y [E|[]]; subst y; exact Hfdc); try exact Hsub; try (apply (NoDup_tail _ _ Hnd)); try (split; exact I); try exact I.
+      * intros y [E|[E|[]]]; subst y; exact Hfdc.
+      * intros n Hn. rewrite Hfut. cbn [fut_of hcur htodo mine adds app]. exact Hn.
+      * exact Hnd.
+      * split; [exact I|]. split; [exact E0|]. destruct Hfd as [H|[_ H]]; [contradiction|exact H].
   - (* L_Size *)
     cbn [drain]. apply Inv2_nowrite; [exact HI| |rewrite Hfut; tauto|exact Hnd|split; exact I|cbn; apply Hbkt|exact Hfd].
     intros y [E|[E|[]]]; subst; [right; apply Hbins|destruct Hfd as [H|[H _]]; [left; exact H|right; exact H]].
@@ -124,9 +140,11 @@ Proof.
     cbn [drain]. apply Inv2_nowrite; [exact HI| |rewrite Hfut; tauto|exact Hnd|split; exact I|cbn; right; exact HnB|right; split; [exact Hni|exact HnB]].
     intros y [E|[E|[]]]; subst y; right; exact Hni.
   - (* L_Ret *)
-    cbn in Hl3. cbn [drain]. apply Inv2_nowrite; [exact HI| |rewrite Hfut; tauto|exact Hnd|split; exact I|exact I|].
-    + intros y [E|[]]. subst y. apply Hcr. left; reflexivity.
-    + destruct (Hcr node) as [E|H]; [left; reflexivity|left; exact E|]. destruct Hl3 as [E|HB]; [left; exact E|right; split; assumption].
+    cbn in Hl3. destruct (N.eqb_spec node 0) as [E0|E0]; cbn [hcur htodo Lfht.found Lfht.fnext drain].
+    + apply Inv2_nowrite; [exact HI| |rewrite Hfut; tauto|exact Hnd|split; exact I|exact I|left; reflexivity].
+      intros y [E|[]]. left. symmetry. exact E.
+    + apply Inv2_nowrite; [exact HI| |rewrite Hfut; tauto|exact Hnd|split; exact I|exact I|exact Hfd].
+      intros y [E|[]]. subst y. destruct Hfd as [H|[H _]]; [left; exact H|right; exact H].
   - (* A_Size *)
     cbn [drain]. apply Inv2_nowrite; [exact HI| |rewrite Hfut; tauto|exact Hnd|split; exact I|cbn; apply Hbkt|exact Hfd].
     intros y [E|[E|[]]]; subst; [right; apply Hbins|destruct Hfd as [H|[H _]]; [left; exact H|right; exact H]].
@@ -134,7 +152,7 @@ Proof.
     cbn in Hl3. destruct (J_bins C isB s HI b Hl3) as [Hb Hb0].
     assert (Hfut' : future C s t = node :: adds todo) by (rewrite Hfut; reflexivity).
     set (r := smem hloc (hprog C) s (HNext b)).
-    apply (step_add_at s t node b u b r todo fnd HI Hfut'); try assumption.
+    apply (step_add_at s t node b u b r todo fnd fx HI Hfut'); try assumption.
     + intros y [E|[E|[E|[E|[]]]]]; subst y; [right; exact Hb|right; exact Hb|apply (Hclose b); [right; exact Hb|exact Hb0]|destruct Hfd as [H|[H _]]; [left; exact H|right; exact H]].
     + apply (J_bnr C isB s HI b Hb Hl3).
   - (* A_Iter *)
@@ -150,9 +168,9 @@ Proof.
       * intros y Hy. cbn [refs hcur app In Lfht.found] in Hy. destruct Hy as [E|[E|[E|[E|[E|[]]]]]]; subst y; try (apply Hcr; cbn; tauto); try exact Hr; try exact Hfdc.
       * split; [|exact I]. cbn. repeat split; try assumption.
     + destruct (u && negb (is_bucket r) && (rh C (ptr iter) =? rh C node)); cbn [hcur htodo Lfht.found].
-      * apply (step_dup_at s t node b u prev iter iter todo fnd HI Hfut'); try assumption.
+      * apply (step_dup_at s t node b u prev iter iter todo fnd fx HI Hfut'); try assumption.
         intros y Hy. cbn [In] in Hy. destruct Hy as [E|[E|[E|[E|[E|[]]]]]]; subst y; try (apply Hcr; cbn; tauto); try exact Hfdc.
-      * apply (step_add_at s t node b u (ptr iter) r todo fnd HI Hfut'); try assumption.
+      * apply (step_add_at s t node b u (ptr iter) r todo fnd fx HI Hfut'); try assumption.
         intros y Hy. cbn [In] in Hy. destruct Hy as [E|[E|[E|[E|[]]]]]; subst y; try (apply Hcr; cbn; tauto); try exact Hr; try exact Hfdc.
   - (* A_Dup *)
     cbn in Hl3. destruct Hl3 as [HBb Hpv]. destruct Hli as [[Hrm Hpc] _].
@@ -166,7 +184,7 @@ Proof.
     + apply Inv2_nowrite; [exact HI| | |cbn; apply (NoDup_tail _ _ Hnd)|split; exact I|exact I|exact Hfd].
       * intros y [E|[E|[]]]; subst y; [right; exact Hcc|exact Hfdc].
       * intros n Hn. rewrite Hfut. cbn. right. exact Hn.
-    + apply (step_dup_at s t node b u prev iter r todo fnd HI Hfut'); try assumption.
+    + apply (step_dup_at s t node b u prev iter r todo fnd fx HI Hfut'); try assumption.
       intros y Hy. cbn [In] in Hy. destruct Hy as [E|[E|[E|[E|[E|[]]]]]]; subst y; try (apply Hcr; cbn; tauto); try exact Hr; try exact Hfdc.
   - (* A_DupAssert *)
     cbn [drain]. apply Inv2_nowrite; [exact HI| |rewrite Hfut; tauto|exact Hnd|split; exact I|exact I|exact Hfd].
@@ -368,6 +386,116 @@ Proof.
     + exact I.
     + destruct Hfd as [H|[H1 H2]]; [left; exact H|right; split; [left; exact H1|exact H2]].
   - (* D_Ret *)
+    cbn [drain]. apply Inv2_nowrite; [exact HI| |rewrite Hfut; tauto|exact Hnd|split; exact I|exact I|exact Hfd].
+    intros y [E|[]]. subst y. destruct Hfd as [H|[H _]]; [left; exact H|right; exact H].
+  - (* R_Size *)
+    destruct Hli as [_ [Ho0 HoB]].
+    assert (Hfut' : future C s t = new :: adds todo) by (rewrite Hfut; reflexivity).
+    assert (Hfdc : fnd = 0 \/ insd s fnd) by (destruct Hfd as [H|[H _]]; [left; exact H|right; exact H]).
+    assert (Hoi : old = 0 \/ insd s old) by (apply Hcr; cbn; tauto).
+    unfold repl_at. destruct (is_removed onext) eqn:Er; cbn [hcur htodo Lfht.found Lfht.fnext drain].
+    + apply Inv2_nowrite; [exact HI| | |cbn; apply (NoDup_tail _ _ Hnd)|split; exact I|exact I|exact Hfd].
+      * intros y [E|[]]. subst y. exact Hfdc.
+      * intros n Hn. rewrite Hfut'. right. exact Hn.
+    + eapply Inv2_into_rcas; [exact HI|reflexivity|rewrite Hfut'; left; reflexivity| |intros n Hn; rewrite Hfut'; exact Hn|exact Hnd|exact Er|exact Ho0|exact HoB|exact Hfd].
+      intros y [E|[E|[]]]; subst y; [exact Hoi|exact Hfdc].
+  - (* R_Cas *)
+    destruct Hli as [[Hrm Hnew] [Ho0 HoB]].
+    assert (Hfut' : future C s t = new :: adds todo) by (rewrite Hfut; reflexivity).
+    assert (Hinn : In new (future C s t)) by (rewrite Hfut'; left; reflexivity).
+    assert (Hfdc : fnd = 0 \/ insd s fnd) by (destruct Hfd as [H|[H _]]; [left; exact H|right; exact H]).
+    assert (Hoi : insd s old) by (destruct (Hcr old) as [E|H]; [cbn; tauto|contradiction|exact H]).
+    destruct (J_fut C isB s HI t new Hinn) as (Hnni & Hn0 & HnB).
+    change (smem hloc (hprog C) s (HNext old)) with (nxw s old).
+    destruct (N.eqb_spec (nxw s old) onext) as [Eq|Ne].
+    + (* success: old.next := new | REMOVED | REMOVAL_OWNER ; new marked inserted *)
+      cbn [hcur htodo Lfht.found Lfht.fnext drain].
+      apply (Inv2_write C isB s t _ _ old (mkp new (REMOVED + OWNER)) (Some new) HI).
+      * left. split; [exact Hoi|rewrite Eq; exact Hrm].
+      * intros x Hx. rewrite upd_o by discriminate. apply upd_o. congruence.
+      * rewrite upd_o by discriminate. apply upd_s.
+      * intros x. cbn [is_ni]. destruct (N.eqb_spec x new) as [->|Hxn]; [apply upd_s|]. rewrite upd_o by congruence. apply upd_o. discriminate.
+      * intros n E. inversion E; subst n. split; [exact Hinn|]. split; [cbn; pose proof Hnd as Hnd'; cbn in Hnd'; inversion Hnd'; assumption|].
+        split; [intros ->; contradiction|]. rewrite Hnew, <- Eq. split; [apply (J_cm C isB s HI old Hoi)|rewrite (J_bk C isB s HI old Hoi); exact HoB].
+      * intros _. rewrite ptr_mkp5, bkt_mkp5. split; [right; right; cbn; apply N.eqb_refl|]. split; [symmetry; exact HoB|intros HB; rewrite HB in HoB; discriminate].
+      * intros y Hy. cbn [refs hcur app In Lfht.found] in Hy. destruct Hy as [E|[E|[E|[E|[]]]]]; subst y;
+          [right; right; cbn; apply N.eqb_refl|right; left; apply Hbins|right; left; exact Hoi|destruct Hfdc as [H|H]; [left; exact H|right; left; exact H]].
+      * intros n Hn. rewrite Hfut'. right. exact Hn.
+      * cbn. apply (NoDup_tail _ _ Hnd).
+      * split; exact I.
+      * cbn. apply Hbkt.
+      * destruct Hfd as [H|[H1 H2]]; [left; exact H|right; split; [left; exact H1|exact H2]].
+    + (* failure: retry with the word just read, or give up if it says old is removed *)
+      unfold repl_at. destruct (is_removed (nxw s old)) eqn:Er; cbn [hcur htodo Lfht.found Lfht.fnext drain].
+      * apply Inv2_nowrite; [exact HI| | |cbn; apply (NoDup_tail _ _ Hnd)|split; exact I|exact I|exact Hfd].
+        -- intros y [E|[]]. subst y. exact Hfdc.
+        -- intros n Hn. rewrite Hfut'. right. exact Hn.
+      * eapply Inv2_into_rcas; [exact HI|reflexivity|exact Hinn| |intros n Hn; rewrite Hfut'; exact Hn|exact Hnd|exact Er|exact Ho0|exact HoB|exact Hfd].
+        intros y [E|[E|[]]]; subst y; [right; exact Hoi|exact Hfdc].
+  - (* RG_Start *)
+    cbn in Hl3. destruct (J_bins C isB s HI b Hl3) as [Hb Hb0].
+    assert (Hfdc : fnd = 0 \/ insd s fnd) by (destruct Hfd as [H|[H _]]; [left; exact H|right; exact H]).
+    set (r := smem hloc (hprog C) s (HNext b)).
+    assert (Hr : ptr r = 0 \/ insd s (ptr r)) by (apply (Hclose b); [right; exact Hb|exact Hb0]).
+    unfold rgc_at. destruct (is_end r) eqn:Ee; [|destruct (rh C new <? rh C (ptr r))]; cbn [hcur htodo Lfht.found Lfht.fnext drain].
+    + apply Inv2_nowrite; [exact HI| |rewrite Hfut; tauto|exact Hnd|split; exact I|exact I|exact Hfd].
+      intros y [E|[E|[]]]; subst y; [apply Hcr; cbn; tauto|exact Hfdc].
+    + apply Inv2_nowrite; [exact HI| |rewrite Hfut; tauto|exact Hnd|split; exact I|exact I|exact Hfd].
+      intros y [E|[E|[]]]; subst y; [apply Hcr; cbn; tauto|exact Hfdc].
+    + apply Inv2_nowrite; [exact HI| |rewrite Hfut; tauto|exact Hnd| |cbn; split; assumption|exact Hfd].
+      * intros y Hy. cbn [refs hcur app In Lfht.found] in Hy. destruct Hy as [E|[E|[E|[E|[E|[E|[]]]]]]]; subst y; try (apply Hcr; cbn; tauto); try (right; exact Hb); try exact Hr; try exact Hfdc.
+      * split; [split; [apply (J_bnr C isB s HI b Hb Hl3)|unfold is_end in Ee; apply N.eqb_neq; exact Ee]|exact I].
+  - (* RG_Iter *)
+    cbn in Hl3. destruct Hl3 as [HBb Hpv]. destruct Hli as [[Hrm Hpi] _].
+    assert (Hci : insd s (ptr iter)).
+    { assert (Hin : In (ptr iter) (refs (RG_Iter new b old prev iter) ++ [fnd])) by (cbn; tauto). destruct (Hcr _ Hin) as [E|H]; [contradiction|exact H]. }
+    assert (Hfdc : fnd = 0 \/ insd s fnd) by (destruct Hfd as [H|[H _]]; [left; exact H|right; exact H]).
+    set (r := smem hloc (hprog C) s (HNext (ptr iter))).
+    assert (Hr : ptr r = 0 \/ insd s (ptr r)) by (apply (Hclose (ptr iter)); [right; exact Hci|exact Hpi]).
+    destruct (is_removed r) eqn:Er; cbn [hcur htodo Lfht.found Lfht.fnext drain].
+    + apply Inv2_nowrite; [exact HI| |rewrite Hfut; tauto|exact Hnd| |cbn; split; assumption|exact Hfd].
+      * intros y Hy. cbn [refs hcur app In Lfht.found] in Hy. destruct Hy as [E|[E|[E|[E|[E|[E|[E|[]]]]]]]]; subst y; try (apply Hcr; cbn; tauto); try exact Hr; try exact Hfdc.
+      * split; [cbn; repeat split; assumption|exact I].
+    + unfold rgc_at. destruct (is_end r) eqn:Ee; [|destruct (rh C new <? rh C (ptr r))]; cbn [hcur htodo Lfht.found Lfht.fnext drain].
+      * apply Inv2_nowrite; [exact HI| |rewrite Hfut; tauto|exact Hnd|split; exact I|exact I|exact Hfd].
+        intros y [E|[E|[]]]; subst y; [apply Hcr; cbn; tauto|exact Hfdc].
+      * apply Inv2_nowrite; [exact HI| |rewrite Hfut; tauto|exact Hnd|split; exact I|exact I|exact Hfd].
+        intros y [E|[E|[]]]; subst y; [apply Hcr; cbn; tauto|exact Hfdc].
+      * apply Inv2_nowrite; [exact HI| |rewrite Hfut; tauto|exact Hnd| |cbn; split; assumption|exact Hfd].
+        -- intros y Hy. cbn [refs hcur app In Lfht.found] in Hy. destruct Hy as [E|[E|[E|[E|[E|[E|[]]]]]]]; subst y; try (apply Hcr; cbn; tauto); try (right; exact Hci); try exact Hr; try exact Hfdc.
+        -- split; [split; [exact Er|unfold is_end in Ee; apply N.eqb_neq; exact Ee]|exact I].
+  - (* RG_Cas *)
+    cbn in Hl3. destruct Hl3 as [HBb Hpv]. destruct Hli as [(Hrm & Hpi & Hrn & Hpn & Hrn2) _].
+    assert (Hcp : insd s prev).
+    { assert (Hin : In prev (refs (RG_Cas new b old prev iter next) ++ [fnd])) by (cbn; tauto). destruct (Hcr _ Hin) as [E|H]; [contradiction|exact H]. }
+    assert (Hcn : ptr next = 0 \/ insd s (ptr next)) by (apply Hcr; cbn; tauto).
+    assert (Hfdc : fnd = 0 \/ insd s fnd) by (destruct Hfd as [H|[H _]]; [left; exact H|right; exact H]).
+    change (smem hloc (hprog C) s (HNext prev)) with (nxw s prev).
+    destruct (N.eqb_spec (nxw s prev) iter) as [Eq|Ne]; cbn [hcur htodo Lfht.found Lfht.fnext drain].
+    + set (newv := if is_bucket iter then clr next + BUCKET else clr next).
+      apply (Inv2_write C isB s t _ _ prev newv None HI).
+      * left. split; [exact Hcp|rewrite Eq; exact Hrm].
+      * intros x Hx. apply upd_o. congruence.
+      * apply upd_s.
+      * intros x. cbn [is_ni]. apply upd_o. discriminate.
+      * intros n E; discriminate.
+      * intros _. split; [unfold newv; destruct (is_bucket iter); rewrite ?ptr_clr_b, ?ptr_clr; destruct Hcn as [H|H]; [left; exact H|right; left; exact H|left; exact H|right; left; exact H]|].
+        split; [|intros _; unfold newv; destruct (is_bucket iter); [apply rem_clrB|apply rem_clr]].
+        rewrite <- (J_bk C isB s HI prev Hcp), Eq. unfold newv. destruct (is_bucket iter); [apply bkt_clrB|apply bkt_clr].
+      * intros y [E|[E|[E|[E|[]]]]]; subst y; [destruct (Hcr new) as [H|H]; [cbn; tauto|left; exact H|right; left; exact H]|destruct (Hcr b) as [H|H]; [cbn; tauto|left; exact H|right; left; exact H]|destruct (Hcr old) as [H|H]; [cbn; tauto|left; exact H|right; left; exact H]|destruct Hfdc as [H|H]; [left; exact H|right; left; exact H]].
+      * intros n Hn. rewrite Hfut. exact Hn.
+      * exact Hnd.
+      * split; exact I.
+      * exact HBb.
+      * destruct Hfd as [H|[H1 H2]]; [left; exact H|right; split; [left; exact H1|exact H2]].
+    + apply Inv2_nowrite; [exact HI| |intros n Hn; rewrite Hfut; exact Hn|exact Hnd| |exact HBb|exact Hfd].
+      * intros y [E|[E|[E|[E|[]]]]]; subst y; [apply Hcr; cbn; tauto|apply Hcr; cbn; tauto|apply Hcr; cbn; tauto|exact Hfdc].
+      * split; exact I.
+  - (* R_Assert *)
+    assert (Hfdc : fnd = 0 \/ insd s fnd) by (destruct Hfd as [H|[H _]]; [left; exact H|right; exact H]).
+    cbn [drain]. apply Inv2_nowrite; [exact HI| |rewrite Hfut; tauto|exact Hnd|split; exact I|exact I|exact Hfd].
+    intros y [E|[]]. subst y. exact Hfdc.
+  - (* R_Ret *)
     cbn [drain]. apply Inv2_nowrite; [exact HI| |rewrite Hfut; tauto|exact Hnd|split; exact I|exact I|exact Hfd].
     intros y [E|[]]. subst y. destruct Hfd as [H|[H _]]; [left; exact H|right; exact H].
 Qed.
